@@ -104,7 +104,7 @@ def run(tier):
         if i % 2:
             sc["mode"] = "sync"
         scen.append(sc)
-    seqfam.run_scenarios(res, scen, "TraceDirect", tag="expr", relayout_p=0.3, retype_p=0.3)
+    seqfam.run_scenarios(res, scen, "TraceDirect", tag="expr", relayout_p=0.3, retype_p=0.3, rename_p=0.3)
     seqfam.run_pinned(res, "TraceDirect")
     nerr = sum(1 for w, _ in res.violations if w.startswith("engine_execerr"))
     res.cov["exhaustive"] = False
